@@ -15,9 +15,11 @@ MANIFEST = dict(
     technique='Rocq proof (symbolic bit-level evaluation of the translated pixel codecs proved sound, so the round-trip laws hold '
               'for all 2^32 pixels / all stored values; induction over exponents for the mipmap table; linear arithmetic for '
               'bounds and scale_down indexes; induction over the chain of mipmap levels for the Frame life cycle; struct model for '
-              'every pack/unpack site of the container) + ast translators (codecs, layout, abstract interpretation of class Frame, '
-              'pack/unpack site census) + vm_compute correspondences (codecs, frame histories, container both directions) + '
-              'save/read oracle search',
+              'every pack/unpack site; whole-file theorem decode_file(encode_file v) by composition of the sites, directory, data '
+              'blocks and offsets; induction over sequences and frames for the particle sheet) + ast translators behind a semantic '
+              'normalisation (codecs, layout incl. symbolic evaluation of scale_down, side lists, abstract interpretation of class '
+              'Frame, pack/unpack site census, flag expression trees, order of the file-writing events of save) + vm_compute '
+              'correspondences (codecs, frame histories, container both directions incl. foreign full-chain files) + save/read oracle search',
     text='Theorems in Props/C15.v, generic in the objects read from the source. Codecs (_py_vtf_readwrite.py): if the kernel-checked '
          'boolean rt_ok codec spec holds then load(save p) is exactly the documented quantisation of p for every byte-valued pixel '
          '(identity on the used channels for the 8-bit formats), every stored value is a byte; if sf_ok holds then save(load d) = d on '
@@ -30,31 +32,40 @@ MANIFEST = dict(
          'compute_mipmaps()+save() write for each level the file\'s pixels while it still has its file source, else its pixels, else '
          '(cleared) the scaled pixels written for the level above - so a file read lazily and saved again keeps its bytes (composed '
          'with the codec fixpoint theorem). Container: every struct.pack/unpack site of VTF.save/VTF.read and of the particle-sheet '
-         'records is regenerated (format strings, field order on both sides, read lengths); for a site that passes site_ok every '
-         'fitting value tuple is read back unchanged under the same field names (floats as 32-bit patterns); blocks laid out behind any '
-         'prefix are found again at the running offsets (resource data blocks, thumbnail, frames in save/read order). The premises are '
-         'regenerated from vtf.py/_py_vtf_readwrite.py on every run and checked in the kernel (142 obligations); the generated codecs '
-         'are compared with the Python codecs, the generated Frame effect tables are run by Coq on symbolic pixels against histories of '
-         'operations on the implementation, implementation-saved files are decoded by the Coq container model and model-encoded files '
-         'are read by VTF.read; whole files are saved and read back over all sizes 1x1..64x64, frames, depth, cubemaps, versions 7.2-7.5, '
-         'all writable formats, resources and sheets.',
-    note='Trusted: Coq kernel + vm_compute, translate/c15_pixel.py, c15_frame.py (abstract interpreter; cross-checked dynamically by the '
-         'frame-history correspondence), c15_container.py (its tables of expression -> field name), the model of byte-valued buffers, '
-         'CPython struct as modelled by Bin/Struct.v (floats as bit patterns; NaN payloads not exercised). The whole-file composition '
-         '(directory walk + offsets + optional parts by version) is an executable Coq model tied by a two-way correspondence, not a '
-         'theorem; proved are its parts (sites, blocks at offsets, data block, texture coordinates). Sheets: record-level theorems + '
-         'correspondence; the nested-list round trip is not proved. The two *_BLUESCREEN formats and nearest-neighbour filters are '
-         'searched, not modelled. Known findings (recorded, not repaired): mipmap_count is one less than the number of levels '
-         '(mipmap-count-off-by-one), RGB565/BGR565 exchange R and B on a round trip (rgb565-rb-swap) - both carved out of the theorems '
-         'as *_pinned / *_refuted statements - and cubemaps saved with a version= override across the 7.5 sphere-map boundary '
-         '(cubemap-save-version-override-across-sphere-map-boundary; the container model has no version override). DXT/ATI formats '
-         'are not writable from Python and outside the property. The Cython twin cannot be built here and is not verified.',
+         'records is regenerated (format strings, field order on both sides, read lengths), the resource flag expressions as trees '
+         'judged over the whole byte domain, the side lists of _depth_range and its callers, the loop nests, and the order in which '
+         'save() records the offsets it patches in. Whole file (c15_whole_file_*): for every file whose values fit their fields, '
+         'decode_file(encode_file v) returns the version, the header values with the real header size, the depth, every resource in '
+         'order (flag bit 0x02 normalised, data blocks byte for byte), the particle sheet and the offsets of the thumbnail and of the '
+         'first frame, which are where the thumbnail and the frames lie; composed with the side lists and loop order, every (frame, '
+         'side/depth, mipmap) read() visits gets exactly the bytes save() produced for it, for any object version and written version '
+         '(save(version=)), cubemap or volume; every fitting file can be encoded. Particle sheets: read_sheet(make_sheet qs) = qs for '
+         'both sheet versions (version 0 keeps the first coordinate of a frame only). The premises are regenerated from '
+         'vtf.py/_py_vtf_readwrite.py on every run and checked in the kernel (180 obligations); the generated codecs are compared with '
+         'the Python codecs, the generated Frame effect tables are run by Coq on symbolic pixels against histories of operations on the '
+         'implementation, implementation-saved files are decoded by the Coq container model and model-encoded files (also files that '
+         'declare all mipmap levels, as other tools write them) are read by VTF.read; whole files are saved and read back over all '
+         'sizes 1x1..64x64, frames, depth, cubemaps, versions 7.2-7.5 with overrides, all writable formats, resources and sheets.',
+    note='Trusted: Coq kernel + vm_compute, translate/c15_norm.py (behaviour-preserving rewrites before the translators: constants, '
+         'precompiled structs, product loops, guard clauses, copy propagation of locals that name a side-effect-free expression over '
+         'stable attributes), c15_pixel.py (incl. its polynomial evaluator for scale_down), c15_frame.py (abstract interpreter; '
+         'cross-checked dynamically by the frame-history correspondence), c15_container.py (its tables of expression -> field name), '
+         'the model of byte-valued buffers, CPython struct as modelled by Bin/Struct.v (floats as bit patterns; NaN payloads not '
+         'exercised). encode_file/decode_file/make_sheet/read_sheet are hand-written models of VTF.save/VTF.read/make_data/'
+         'from_resource: the theorems are about them; their tie to the source is the regenerated sites, flag trees, side lists, loop '
+         'nests and event order (instance obligations), the example files evaluated in the kernel over the generated formats, and the '
+         'two-way correspondence on every run - not a refinement proof of the Python control flow. The two *_BLUESCREEN formats, the '
+         'nearest-neighbour filters beyond their offset table and the thumbnail regeneration policy are searched, not modelled. Known '
+         'findings (recorded, not repaired): mipmap_count is one less than the number of levels (mipmap-count-off-by-one), '
+         'RGB565/BGR565 exchange R and B on a round trip (rgb565-rb-swap) - both carved out of the theorems as *_pinned / *_refuted '
+         'statements. Repaired in round 3: save(version=) across the 7.5 sphere-map boundary for cubemaps. DXT/ATI formats are not '
+         'writable from Python and outside the property. The Cython twin cannot be built here and is not verified.',
 )
 
-IMPORTS = ['Coq.NArith.NArith', 'Coq.ZArith.ZArith', 'Coq.Lists.List', 'SV.Fmt.VtfPixelExpr', 'SV.Fmt.VtfLayout',
+IMPORTS = ['Coq.NArith.NArith', 'Coq.ZArith.ZArith', 'Coq.Lists.List', 'SV.Fmt.VtfPixelExpr', 'SV.Fmt.VtfLayout', 'SV.Fmt.VtfSides',
            'SV.Gen.PixelCodecs_gen', 'SV.Gen.VtfLayout_gen']
 IMPORTS_CONT = ['Coq.NArith.NArith', 'Coq.ZArith.ZArith', 'Coq.Lists.List', 'Coq.Strings.String', 'Coq.Bool.Bool', 'SV.Bin.Struct',
-                'SV.Fmt.VtfContainer', 'SV.Gen.VtfContainer_gen']
+                'SV.Fmt.VtfContainer', 'SV.Fmt.VtfWholeFile', 'SV.Gen.VtfContainer_gen']
 IMPORTS_FRAME = ['Coq.Lists.List', 'Coq.Strings.String', 'Coq.Bool.Bool', 'SV.Fmt.VtfFrameSM', 'SV.Gen.VtfFrameSM_gen']
 
 # format (lower case) -> (specification of load-after-save, canonical stored form)
@@ -83,9 +94,10 @@ def _patch_known() -> None:
         k = orig()
         p = VERIF / 'known_findings.d' / 'C15.json'
         if p.exists():
+            # this property's own file is authoritative for C15 (an entry removed there because the defect was repaired
+            # must not linger in the assembled file until the next integration)
             d = json.loads(p.read_text())
-            have = {(e['property'], e['key']) for e in k.get('known', [])}
-            k.setdefault('known', []).extend(e for e in d.get('known', []) if (e['property'], e['key']) not in have)
+            k['known'] = [e for e in k.get('known', []) if e.get('property') != 'C15'] + [e for e in d.get('known', []) if e.get('property') == 'C15']
         return k
     load_known._c15 = True
     common.load_known = load_known
@@ -402,7 +414,7 @@ def gen_config(rng: random.Random, w: int, h: int, fmts: list[str]) -> dict:
                     frs.append([f32(rng.uniform(0, 2)), tcs])
                 seqs[str(sn)] = {'frames': frs, 'clamp': rng.random() < 0.5, 'duration': f32(rng.uniform(0, 10))}
             cfg['sheet'], cfg['sheet_ver'] = seqs, sv
-    if not cube and rng.random() < 0.15:
+    if rng.random() < (0.4 if cube else 0.15):     # cubemaps: the side list changes at 7.5 (sphere map), so overrides matter most there
         cfg['save_version'] = rng.choice([v for v in (2, 3, 4, 5) if (v >= 3 or (not cfg['resources'] and not cfg['sheet']))])
     return cfg
 
@@ -468,6 +480,20 @@ def run_config(cfg: dict) -> list[tuple[str, str]]:
         return probs + [(f'save-raises-{type(e).__name__}', f'save raised {type(e).__name__}: {e}')]
     b1 = buf.getvalue()
     orig = {k: bytes(f._data) for k, f in vtf._frames.items() if f._data is not None}
+    # a cubemap written as another version has the sides of THAT version: the sphere map is dropped when writing 7.5, and a
+    # 7.5 cubemap written as 7.2-7.4 gets a blank (opaque black) sphere map; the object itself is unchanged
+    if cfg['cube'] and sv is not None and (sv[1] >= 5) != (cfg['version'] >= 5):
+        from srctools.vtf import CubeSide
+        if keys0 != set(vtf._frames):
+            probs.append(('save-changes-frame-table', 'save(version=) changed the frame table of the object'))
+        if sv[1] >= 5:
+            keys0 = {k for k in keys0 if k[1] is not CubeSide.SPHERE}
+        else:
+            for k in [k for k in keys0 if k[1] is CubeSide.FRONT]:
+                ks = (k[0], CubeSide.SPHERE, k[2])
+                keys0.add(ks)
+                dims0[ks] = dims0[k]
+                orig[ks] = bytes((0, 0, 0, 255)) * (dims0[k][0] * dims0[k][1])
     orig_low = bytes(vtf._low_res._data) if vtf._low_res._data is not None else None
     # ---- generated mipmaps are floor-averages of their parent
     if cfg['mode'] == 'generated':
@@ -531,8 +557,14 @@ def run_config(cfg: dict) -> list[tuple[str, str]]:
             else:
                 i = next(i for i in range(0, len(got), 4) if got[i:i + 4] != exp[i:i + 4])
                 layout_bad = any(pk_.startswith(('meta-', 'frame-table', 'frame-dimensions', 'mipmap-count-wrong')) for pk_, _ in probs)
-                probs.append(('pixels-displaced-after-layout-mismatch' if layout_bad else f'pixel-mismatch-{cfg["fmt"].lower()}', f'frame {k} pixel {i // 4}: input {tuple(orig[k][i:i + 4])} read back '
-                              f'{tuple(got[i:i + 4])}, expected {tuple(exp[i:i + 4])}'))
+                other = next((k2 for k2 in sorted(orig, key=str) if k2 != k and dims0.get(k2) == dims0[k] and len(got) > 4
+                              and ref_quantise(cfg['fmt'], orig[k2]) == got), None)
+                if other is not None and not layout_bad:
+                    probs.append(('frames-permuted', f'frame {k} reads back exactly the pixels saved for frame {other}: save and read disagree about '
+                                                     f'the order of the (frame, side/depth, mipmap) blocks'))
+                else:
+                    probs.append(('pixels-displaced-after-layout-mismatch' if layout_bad else f'pixel-mismatch-{cfg["fmt"].lower()}', f'frame {k} pixel {i // 4}: input {tuple(orig[k][i:i + 4])} read back '
+                                  f'{tuple(got[i:i + 4])}, expected {tuple(exp[i:i + 4])}'))
             break
     if cfg['thumb'] != 'NONE' and orig_low is not None and (v2._low_res.width, v2._low_res.height) == (vtf._low_res.width, vtf._low_res.height):
         exp = ref_quantise(cfg['thumb'], orig_low)
@@ -670,23 +702,41 @@ def search_files(ck: Ck) -> None:
 
 
 
-def cube_override(v0: int, v1: int) -> str | None:
-    """A cubemap of version 7.v0 saved with save(version=(7, v1)); -> description of what goes wrong, or None."""
-    from srctools.vtf import VTF, ImageFormats, VTFFlags
+def cube_override(v0: int, v1: int, frames: int = 2, lazy: bool = False) -> str | None:
+    """A cubemap of version 7.v0 saved with save(version=(7, v1)); -> description of what goes wrong, or None.
+    Expected: the file has the sides of version 7.v1 (six, plus the sphere map below 7.5); every side the object has reads
+    back exactly, a sphere map the object does not have reads back blank (opaque black), the object keeps its frame table.
+    lazy: the object is itself a lazily read file (frames still have their file source)."""
+    from srctools.vtf import VTF, ImageFormats, VTFFlags, CubeSide
     rng = random.Random(v0 * 8 + v1)
-    v = VTF(4, 4, version=(7, v0), fmt=ImageFormats.RGBA8888, thumb_fmt=ImageFormats.NONE, flags=VTFFlags.ENVMAP)
+    v = VTF(4, 4, version=(7, v0), frames=frames, fmt=ImageFormats.RGBA8888, thumb_fmt=ImageFormats.NONE, flags=VTFFlags.ENVMAP)
     for f in v._frames.values():
         f.copy_from(rng.randbytes(4 * f.width * f.height))
+    pixels = {k: bytes(f._data) for k, f in v._frames.items()}
+    what = f'cubemap 7.{v0}' + (' (read lazily)' if lazy else '') + f', {frames} frames, saved as 7.{v1}'
     buf = io.BytesIO()
     try:
+        if lazy:
+            b0 = io.BytesIO()
+            v.save(b0)
+            v = VTF.read(io.BytesIO(b0.getvalue()))
+        keys_before = set(v._frames)
         v.save(buf, version=(7, v1))
         v2 = VTF.read(io.BytesIO(buf.getvalue()))
         v2.load()
     except Exception as e:
-        return f'cubemap 7.{v0} saved as 7.{v1}: {type(e).__name__}: {e}'
-    for k, f in v2._frames.items():
-        if k[2] < v.mipmap_count and (k not in v._frames or bytes(f._data) != bytes(v._frames[k]._data)):
-            return f'cubemap 7.{v0} saved as 7.{v1}: side {k} reads back other pixels than were saved ({len(v._frames)} frames before, {len(v2._frames)} after)'
+        return f'{what}: {type(e).__name__}: {e}'
+    if set(v._frames) != keys_before or v.version != (7, v0):
+        return f'{what}: save(version=) changed the object (frame table or version)'
+    sides = [s for s in CubeSide if s is not CubeSide.SPHERE or v1 < 5]
+    want = {(fr, s, m) for fr in range(frames) for s in sides for m in range(v.mipmap_count)}
+    if set(v2._frames) != want or v2.version != (7, v1):
+        return f'{what}: the file has version {v2.version} and {len(v2._frames)} frames, expected {len(want)} ({len(sides)} sides)'
+    for k in sorted(want, key=str):
+        f = v2._frames[k]
+        exp = pixels.get(k, bytes((0, 0, 0, 255)) * (f.width * f.height))
+        if bytes(f._data) != exp:
+            return f'{what}: side {k} reads back other pixels than were saved ({len(v._frames)} frames before, {len(v2._frames)} after)'
     return None
 
 
@@ -695,13 +745,58 @@ def search_cube_override(ck: Ck) -> None:
         for v1 in (2, 3, 4, 5):
             if v0 == v1:
                 continue
-            ck.count('cubemap_version_overrides')
-            ck.seen(('cube_override', v0, v1))
-            what = cube_override(v0, v1)
+            for frames, lazy in ((1, False), (2, False), (3, True)):
+                ck.count('cubemap_version_overrides')
+                ck.seen(('cube_override', v0, v1, frames, lazy))
+                what = cube_override(v0, v1, frames, lazy)
+                if what is not None:
+                    across = (v0 >= 5) != (v1 >= 5)
+                    ck.violation('cubemap-save-version-override-across-sphere-map-boundary' if across else 'cubemap-save-version-override-differs',
+                                 what, {'cube_override': [v0, v1, frames, lazy]})
+                    break
+
+
+def full_chain(w: int, h: int, fmt_name: str, seed: int) -> str | None:
+    """A texture whose owner declares ALL the levels the constructor created (mipmap_count := number of levels - what other
+    tools write, and what the known finding mipmap-count-off-by-one withholds): levels down to 1x1 have a side clamped to 1.
+    Every level must be written and read back with its size max(w >> m, 1) x max(h >> m, 1) and its pixels."""
+    from srctools.vtf import VTF, ImageFormats
+    rng = random.Random(seed)
+    v = VTF(w, h, fmt=ImageFormats[fmt_name], thumb_fmt=ImageFormats.NONE)
+    levels = 1 + max(k[2] for k in v._frames)
+    v.mipmap_count = levels
+    pixels = {}
+    for k, f in v._frames.items():
+        f.copy_from(rng.randbytes(4 * f.width * f.height))
+        pixels[k] = bytes(f._data)
+    what = f'{w}x{h} {fmt_name} with mipmap_count set to all {levels} levels'
+    try:
+        buf = io.BytesIO()
+        v.save(buf)
+        v2 = VTF.read(io.BytesIO(buf.getvalue()))
+        v2.load()
+    except Exception as e:
+        return f'{what}: {type(e).__name__}: {e}'
+    if v2.mipmap_count != levels or set(v2._frames) != set(pixels):
+        return f'{what}: read back {v2.mipmap_count} levels, frame table {len(v2._frames)} entries instead of {len(pixels)}'
+    for k in sorted(pixels, key=str):
+        f = v2._frames[k]
+        if (f.width, f.height) != (max(w >> k[2], 1), max(h >> k[2], 1)):
+            return f'{what}: level {k[2]} read back as {f.width}x{f.height}'
+        if bytes(f._data) != ref_quantise(fmt_name, pixels[k]):
+            return f'{what}: level {k[2]} reads back other pixels than were saved'
+    return None
+
+
+def search_full_chain(ck: Ck) -> None:
+    for (w, h) in [(8, 2), (2, 8), (16, 1), (1, 4), (4, 4), (32, 4)]:
+        for fmt_name in ('RGBA8888', 'BGR888'):
+            ck.count('full_mip_chains')
+            ck.seen(('full_chain', w, h, fmt_name))
+            what = full_chain(w, h, fmt_name, ck.seed + w * 64 + h)
             if what is not None:
-                across = (v0 >= 5) != (v1 >= 5)
-                ck.violation('cubemap-save-version-override-across-sphere-map-boundary' if across else 'cubemap-save-version-override-differs',
-                             what, {'cube_override': [v0, v1]})
+                ck.violation('full-mip-chain-not-read-back', what, {'full_chain': [w, h, fmt_name, ck.seed + w * 64 + h]})
+                return
 
 
 # ================================================================================================ bounds / mipmap filters / sheets
@@ -782,6 +877,8 @@ def search_filters(ck: Ck) -> None:
 
 
 # ================================================================================================ container
+GEN_F = '(cfmts_of_sites gen_version gen_header gen_depth gen_res_count gen_entry_inline (fst gen_block_len_r))'
+GEN_SF = '(sfmts_of_sites gen_sheet_head gen_sheet_seq gen_sheet_dur gen_sheet_tex)'
 _SITES = ['version', 'header', 'depth', 'res_count', 'entry_inline', 'sheet_head', 'sheet_seq', 'sheet_dur', 'sheet_tex']
 CONT_OBS = {f'site_{n}_same_format_and_field_order_on_both_sides': f'site_ok gen_{n}' for n in _SITES}
 CONT_OBS.update({
@@ -808,7 +905,11 @@ CONT_OBS.update({
         ':: ("mipmap_count", "mipmap_count" :: nil) :: ("flags", "VTFFlags(flags)" :: nil) :: ("reflectivity", "Vec(ref_r, ref_g, ref_b)" :: nil) '
         ':: ("bumpmap_scale", "bumpmap_scale" :: nil) :: ("format", "FORMAT_ORDER[high_format]" :: nil) '
         ':: ("version", "(version_major, version_minor)" :: nil) :: ("low_format", "FORMAT_ORDER[low_format]" :: nil) :: nil)%string',
-    'reader_tests_resource_flag_2': 'gen_read_tests_flag_2',
+    'out_of_line_entries_store_the_flags_with_exactly_bit_2_cleared': 'offset_flags_ok gen_flagcfg',
+    'inline_entries_store_the_flags_with_exactly_bit_2_set': 'inline_flags_ok gen_flagcfg',
+    'reader_fetches_a_data_block_exactly_when_bit_2_is_clear': 'read_test_ok gen_flagcfg',
+    'fixed_entries_low_high_sheet_have_flags_0': '(fixed_flags_ok gen_flagcfg && Nat.leb 2 (List.length gen_flag_fixed))%bool',
+    'resource_flag_configuration_ok': 'flags_ok gen_flagcfg',
     'sheet_reader_advances_by_the_record_sizes':
         'match gen_sheet_incs with (a :: b :: c :: d :: e :: nil) => (Z.eqb a (Z.of_nat (calcsize (fmt_of (r_fmt gen_sheet_head)))) '
         '&& Z.eqb b (Z.of_nat (calcsize (fmt_of (r_fmt gen_sheet_seq)))) && Z.eqb c (Z.of_nat (calcsize (fmt_of (r_fmt gen_sheet_dur)))) '
@@ -816,15 +917,26 @@ CONT_OBS.update({
     'sheet_reader_takes_the_four_coordinates_at_0_16_32_48':
         'strs_eqb gen_sheet_tex_offs ("offset" :: "offset" :: "offset + 16" :: "offset + 32" :: "offset + 48" :: nil)%string',
     'sheet_writer_emits_coordinates_a_b_c_d_in_order': 'strs_eqb gen_sheet_tex_written ("tex_a" :: "tex_b" :: "tex_c" :: "tex_d" :: nil)%string',
+    # premises of the whole-file theorems (c15_whole_file_*) for the GENERATED formats and flag expressions
+    'container_formats_are_well_formed_and_the_block_length_is_4_bytes': f'fmts_wf {GEN_F}',
+    'container_formats_are_those_of_the_documented_layout': f'cfmts_eqb {GEN_F} std_fmts',
+    'example_file_7_4_with_inline_and_data_resources_and_sheet_is_decoded_as_encoded': f'(vfile_fits {GEN_F} gen_flagcfg (ex_file 4) && ex_roundtrip_ok {GEN_F} gen_flagcfg 4)%bool',
+    'example_files_7_3_and_7_2_are_decoded_as_encoded': f'(ex_roundtrip_ok {GEN_F} gen_flagcfg 3 && vfile_fits_old {GEN_F} (ex_file 2) && ex_roundtrip_ok {GEN_F} gen_flagcfg 2)%bool',
+    # premises of c15_sheet_roundtrip for the GENERATED sheet formats; the example sheet through them, both versions
+    'sheet_formats_are_well_formed': f'sfmts_wf {GEN_SF}',
+    'example_sheet_is_read_back_in_both_sheet_versions': f'(ex_sheet_ok {GEN_SF} 1 && ex_sheet_ok {GEN_SF} 0)%bool',
+    # where save() records the offsets it patches into the directory / header (order of the file-writing events)
+    'save_records_the_header_size_behind_the_directory_and_before_any_data': 'header_size_ok gen_save_events',
+    'save_records_each_data_block_offset_right_before_its_length_and_data':
+        '(set_then_block "res" gen_save_events && set_then_block "particle" gen_save_events)%bool%string',
+    'save_records_thumbnail_and_first_frame_offsets_right_before_they_are_written': 'low_high_ok gen_save_events',
     'sheet_version_tests_present_on_both_sides':
         '(existsb (String.eqb "version == 1") gen_sheet_tests && existsb (String.eqb "version == 0") gen_sheet_tests)%bool%string',
 })
 
 PRE_CONT = """Import ListNotations. Open Scope list_scope.
-Definition F : cfmts := {| f_version := fmt_of (w_fmt gen_version); f_header := fmt_of (w_fmt gen_header); f_depth := fmt_of (w_fmt gen_depth);
-  f_count := fmt_of (w_fmt gen_res_count); f_entry := fmt_of (w_fmt gen_entry_inline); f_len := fmt_of (fst gen_block_len_r) |}.
-Definition SF : sfmts := {| s_head := fmt_of (w_fmt gen_sheet_head); s_seq := fmt_of (w_fmt gen_sheet_seq); s_dur := fmt_of (w_fmt gen_sheet_dur);
-  s_tex := fmt_of (w_fmt gen_sheet_tex) |}.
+Definition F : cfmts := """ + GEN_F + """.
+Definition SF : sfmts := """ + GEN_SF + """.
 Definition zn (z : Z) : N := Z.to_N (z + 4294967296).
 Definition serv (v : value) : list N := match v with VInt z => [zn z] | VFloat b => [b] | VBool b => [if b then 1 else 0]%N | VBytes l => l end.
 Definition ser_res (r : list N * Z * resval) : list N :=
@@ -836,13 +948,13 @@ Definition ser_sheet (bs : list N) : list N :=
         ++ flat_map (fun f => sf_duration f :: List.concat (sf_coords f)) (sq_frames q)) qs
   end.
 Definition dec (low_size : nat) (bs : list N) : list N :=
-  match decode_file F low_size bs with
+  match decode_file F gen_flagcfg low_size bs with
   | None => [999]%N
   | Some (m, hdr, d, res, sheet, lo, hi) =>
       [zn m] ++ flat_map serv hdr ++ [zn d; N.of_nat (List.length res)] ++ flat_map ser_res res
       ++ match sheet with Some sb => 1%N :: ser_sheet sb | None => [0]%N end ++ [N.of_nat lo; N.of_nat hi]
   end.
-Definition enc (v : vfile) : list N := match encode_file F v with Some bs => bs | None => [999]%N end.
+Definition enc (v : vfile) : list N := match encode_file F gen_flagcfg v with Some bs => bs | None => [999]%N end.
 Definition mk_sheet (ver : Z) (qs : list sheet_seq) : list N := match make_sheet SF ver qs with Some bs => bs | None => [999]%N end.
 """
 
@@ -931,6 +1043,30 @@ def _coq_sheet(cfg: dict) -> str:
     return f'(mk_sheet {cfg["sheet_ver"]} [{"; ".join(qs)}])'
 
 
+def foreign_chain(data: bytes, w: int, h: int, n_full: int, dims: list, blocks: list) -> str | None:
+    """A wxh RGBA8888 file that declares all n_full levels (smallest first in the file): what VTF.read must make of it."""
+    from srctools.vtf import VTF
+    what = f'{w}x{h} file declaring all {n_full} mipmap levels'
+    try:
+        v = VTF.read(io.BytesIO(data))
+        if v.mipmap_count != n_full or set(v._frames) != {(0, 0, m) for m in range(n_full)}:
+            return f'{what}: read as {v.mipmap_count} levels with frame table {sorted(v._frames)}'
+        for (fw, fh), blk, m in zip(dims, blocks, reversed(range(n_full))):
+            f = v._frames[0, 0, m]
+            if (f.width, f.height) != (fw, fh):
+                return f'{what}: level {m} read as {f.width}x{f.height} instead of {fw}x{fh}'
+            off = f._fileinfo[1]
+            if data[off:off + len(blk)] != blk:
+                return f'{what}: level {m} is read from offset {off}, where its block is not'
+        v.load()
+        for (fw, fh), blk, m in zip(dims, blocks, reversed(range(n_full))):
+            if bytes(v._frames[0, 0, m]._data) != blk:
+                return f'{what}: level {m} loads other pixels than the file holds'
+    except Exception as e:
+        return f'{what}: {type(e).__name__}: {e}'
+    return None
+
+
 def corr_container(ck: Ck) -> None:
     """Both directions: files saved by the implementation are decoded by the Coq model (decode_file / read_sheet over the
     GENERATED formats) and compared with the configuration; files encoded by the Coq model are read by VTF.read."""
@@ -958,7 +1094,13 @@ def corr_container(ck: Ck) -> None:
             ck.violation(f'save-raises-{type(e).__name__}', f'save raised {type(e).__name__}: {e}', {'config': c})
             continue
         b1 = buf.getvalue()
-        lazy = VTF.read(io.BytesIO(b1))
+        try:
+            lazy = VTF.read(io.BytesIO(b1))
+        except Exception as e:
+            ck.violation(f'read-raises-{type(e).__name__}', f'reading the saved file raised {type(e).__name__}: {e}', {'config': c})
+            ck.obligation('correspondence:container', False, f'a file saved by VTF.save cannot be read back: {type(e).__name__}: {e}')
+            ck.tie_broken.append('correspondence container: VTF.read raises on a file written by VTF.save')
+            return
         offs = [f._fileinfo[1] for f in lazy._frames.values() if f._fileinfo]
         low_fi = lazy._low_res._fileinfo
         low_size = ImageFormats[c['thumb']].frame_size(16, 16) if c['thumb'] != 'NONE' else 0
@@ -987,6 +1129,21 @@ def corr_container(ck: Ck) -> None:
         exprs.append('enc {| v_minor := %d; v_header := [%s]; v_depth := %d; v_res := [%s]; v_sheet := %s; v_low := %s; v_high := [%s] |}'
                      % (c['version'], hv, c['depth'], res, sheet, common.coq_bytes(lowb), '; '.join(common.coq_bytes(b) for b in blocks)))
         metas.append(('enc', c, (vtf, blocks, lowb, [k for k in lazy._frames]), None))
+    # files as OTHER tools write them: all levels down to 1x1 are declared (mipmap_count = log2(max side) + 1), so the small
+    # levels of a non-square texture have one side clamped to 1 - srctools itself never declares them (known finding
+    # mipmap-count-off-by-one), but VTF.read must give them the size max(w >> m, 1) x max(h >> m, 1) and the right blocks
+    for (fw, fh) in [(8, 2), (2, 16), (4, 4)]:
+        fv = VTF(fw, fh, version=(7, 4), fmt=ImageFormats.RGBA8888, thumb_fmt=ImageFormats.NONE)
+        n_full = max(fw, fh).bit_length()
+        r = random.Random(ck.seed + fw * 100 + fh)
+        dims = [(max(fw >> m, 1), max(fh >> m, 1)) for m in reversed(range(n_full))]
+        blocks = [r.randbytes(4 * a * b_) for a, b_ in dims]
+        hv = '; '.join(f'VInt {v}' for v in [0, fw, fh, 0, 1, 0]) + '; VFloat 0; VFloat 0; VFloat 0; VFloat 1065353216; ' \
+            + '; '.join(f'VInt ({v})' for v in [fv.format.bin_value(True), n_full, fv.low_format.bin_value(True), 16, 16])
+        exprs.append('enc {| v_minor := 4; v_header := [%s]; v_depth := 1; v_res := []; v_sheet := None; v_low := []; v_high := [%s] |}'
+                     % (hv, '; '.join(common.coq_bytes(b_) for b_ in blocks)))
+        metas.append(('foreign', {'w': fw, 'h': fh}, (n_full, dims, blocks), None))
+        ck.count('container_foreign_full_chain_files')
     vals = ck.coq_eval(IMPORTS_CONT, exprs, name='container', preamble=PRE_CONT, timeout=600) if exprs else []
     if vals is None:
         ck.obligation('correspondence:container', False, 'the container model could not be evaluated in Coq')
@@ -1000,6 +1157,12 @@ def corr_container(ck: Ck) -> None:
                 i = next((i for i, (a, b) in enumerate(zip(got, exp)) if a != b), min(len(got), len(exp)))
                 bad.append({'direction': 'implementation file decoded by the model', 'config': c, 'first_difference_at': i,
                             'model': got[max(0, i - 2):i + 3], 'expected': exp[max(0, i - 2):i + 3]})
+            continue
+        if kind == 'foreign':
+            what = foreign_chain(bytes(got), c['w'], c['h'], *exp)
+            if what is not None:
+                bad.append({'direction': 'full-chain file (as other tools write it) encoded by the model, read by VTF.read', 'size': c, 'problem': what})
+                ck.violation('foreign-full-mip-chain-misread', what, {'foreign_chain': [bytes(got).hex(), c['w'], c['h'], exp[0], exp[1], [b_.hex() for b_ in exp[2]]]})
             continue
         vtf, blocks, lowb, keys = exp
         ck.count('container_files_encoded_by_model')
@@ -1368,14 +1531,21 @@ def run(ck: Ck) -> None:
                '(load/clear/fill/copy_from/__setitem__/rescale_from/compute_mipmaps/__exit__ on random levels) plus 13 fixed histories, '
                'then save; distinct by the operation list, non-trivial = at least one operation. '
                'container: small sizes, versions 7.2-7.5, cubemaps, depth, frames, 0-4 resources, sheets; distinct by configuration. '
-               'cubemap save(version=) overrides: all 12 ordered pairs of versions.')
+               'cubemap save(version=) overrides: all 12 ordered pairs of versions, 1-3 frames, also on a lazily read object. '
+               'full mip chains: six shapes (square and not) x two formats with mipmap_count set to the number of levels.')
     ck.trusted.append('Fmt/VtfPixelExpr.v specification tuples spec_* / canon_* (hand-written from the docstrings; their meaning as functions '
                       'is restated by c15_spec_* theorems) and checks/c15.py ref_quantise (independent Python restatement used by the oracle)')
     ck.trusted.append('translate/c15_frame.py tables D_COQ/S_COQ and READERS, translate/c15_container.py tables SAVE_FIELD/READ_FIELD/READ_ATTR '
                       '(which source expression is which field); checks/c15.py spec_history (independent restatement of what save must write)')
+    ck.trusted.append('translate/c15_norm.py: behaviour-preserving rewrites applied to vtf.py before the translators (module constants, '
+                      'precompiled structs, product loops, literal-tuple loops, unused enumerate, guard clauses, helper inlining, copy '
+                      'propagation of locals that name a side-effect-free expression over stable attributes or inside a call-free window); '
+                      'the polynomial evaluator of scale_down in translate/c15_pixel.py')
     ck.assumptions += [
         'a frame is not passed to its own copy_from/rescale_from (no aliasing of self and the parameter frame)',
-        'the container theorems are per site / per block; their composition into the whole file is tied by correspondence only',
+        'encode_file/decode_file and make_sheet/read_sheet are hand-written models of VTF.save/VTF.read and SheetSequence.make_data/'
+        'from_resource: the whole-file and sheet theorems are about the models; their tie to the source is the regenerated sites, flag '
+        'trees, side lists, loop nests and event order (instance obligations) plus the two-way container correspondence of every run',
         'pixel buffers hold bytes (array("B") / bytearray): every theorem about codecs is for components in 0..255',
         'width and height are powers of two (VTF.__init__ rejects everything else)',
         'Python int arithmetic is unbounded: the codec expressions are evaluated over N without wrap-around',
@@ -1411,6 +1581,12 @@ def run(ck: Ck) -> None:
             'mipmap_count_is_number_of_levels_or_known_last_index': 'orb (mip_count_ok gen_mipcfg) (N.eqb (count_delta gen_mipcfg) 0)',
             'save_and_read_walk_frames_in_the_same_order': 'order_eqb save_order read_order',
             'frame_key_is_frame_depth_mip': 'frame_key_is_frame_depth_mip',
+            'save_and_read_loop_nests_have_the_same_order_mip_frame_side': '(lorder_eqb gen_save_order gen_read_order && lorder_eqb gen_save_order good_order)%bool',
+            'save_takes_the_side_list_of_the_version_it_writes': 'match sd_save gen_sidescfg with MWritten => true | MObject => false end',
+            'read_takes_the_side_list_of_the_version_in_the_file': 'match sd_read gen_sidescfg with MWritten => true | MObject => false end',
+            'save_writes_a_blank_frame_for_a_side_the_object_lacks': 'sd_missing_blank gen_sidescfg',
+            'side_list_configuration_ok': 'sides_ok gen_sidescfg',
+            'cubemaps_have_six_sides_from_7_5_and_the_sphere_map_before': 'sphere_rule_ok gen_sidescfg',
             'read_level_size_is_max_shr_1': 'read_dims_are_max_shr_1',
             'compute_mipmaps_uses_previous_level': 'compute_mipmaps_from_previous_level',
             'getitem_rejects_negative_x': 'rejects_x_low getitem_reject', 'getitem_rejects_x_ge_width': 'rejects_x_high getitem_reject',
@@ -1421,6 +1597,7 @@ def run(ck: Ck) -> None:
             'bilinear_adds_the_four_block_texels': 'terms_eqb bilinear_terms block_terms',
             'bilinear_divides_by_4': 'Z.eqb bilinear_div 4',
             'nearest_filters_pick_block_corners': 'terms_eqb nearest_terms block_terms',
+            'nearest_filters_use_the_same_texel_offsets_as_bilinear': 'nearest_offsets_same_as_bilinear',
         })
         ck.instance_obligations(IMPORTS, obs)
         ck.instance_obligations(IMPORTS_FRAME, FRAME_OBS, name='inst_frame')
@@ -1433,8 +1610,12 @@ def run(ck: Ck) -> None:
     search_filters(ck)
     search_files(ck)
     search_cube_override(ck)
-    # which broken obligations do the concrete violations explain?
-    keys = {v['key'] for v in ck.violations}
+    search_full_chain(ck)
+    # which broken obligations do the concrete violations explain?  Only NEW violations count: a known finding is reported
+    # on every run and explains nothing that breaks today (round 3: the known mipmap-count finding used to explain a
+    # failed layout translation, so a tree on which the proof side was not checked at all could exit 0).
+    known_keys = {k['key'] for k in common.load_known().get('known', []) if k.get('property') == ck.pid}
+    keys = {v['key'] for v in ck.violations if v['key'] not in known_keys}
     for k in keys:
         if k.startswith(('pixel-mismatch-', 'stored-not-fixpoint-', 'thumbnail-mismatch-')):
             f = k.rsplit('-', 1)[1]
@@ -1451,7 +1632,19 @@ def run(ck: Ck) -> None:
             ck.explain('instance:every_deferred')
             ck.explain('instance:version_tests')
             ck.explain('instance:padding_')
-            ck.explain('instance:reader_tests')
+            ck.explain('instance:reader_fetches')
+            ck.explain('instance:out_of_line_entries')
+            ck.explain('instance:inline_entries')
+            ck.explain('instance:fixed_entries')
+            ck.explain('instance:resource_flag')
+            ck.explain('instance:save_records')
+            ck.explain('instance:example_')
+            ck.explain('instance:container_formats')
+            ck.explain('instance:sheet_formats')
+            ck.explain('correspondence:container')
+        if k.startswith(('thumbnail-mismatch-', 'read-raises', 'resources-differ', 'sheet-differs', 'frames-permuted', 'pixels-displaced')):
+            ck.explain('instance:save_records')
+            ck.explain('instance:example_')
             ck.explain('correspondence:container')
         if k.startswith(('frame-history-', 'lazy-resave-')):
             ck.explain('instance:frame_')
@@ -1460,6 +1653,14 @@ def run(ck: Ck) -> None:
             ck.explain('instance:save_')
             ck.explain('correspondence:frame-histories')
             ck.explain('translate:VtfFrameSM_gen')
+        if k.startswith(('cubemap-save-version-override', 'frame-table', 'read-raises', 'save-raises', 'pixels-displaced', 'pixel-mismatch-', 'frames-permuted', 'full-mip-chain-')):
+            ck.explain('instance:save_takes_the_side_list')
+            ck.explain('instance:read_takes_the_side_list')
+            ck.explain('instance:save_writes_a_blank_frame')
+            ck.explain('instance:side_list_configuration_ok')
+            ck.explain('instance:cubemaps_have_six_sides')
+            ck.explain('instance:save_and_read_loop_nests')
+            ck.explain('instance:save_and_read_walk')
         if k.startswith('frame-getitem'):
             ck.explain('instance:getitem_')
         if k.startswith('frame-setitem'):
@@ -1467,9 +1668,10 @@ def run(ck: Ck) -> None:
         if k.startswith(('generated-mipmap', 'mip-dimensions')):
             ck.explain('instance:bilinear_')
             ck.explain('instance:nearest_')
+            ck.explain('translate:VtfLayout_gen')
             ck.explain('instance:compute_mipmaps')
             ck.explain('build:')
-        if k.startswith(('mipmap-count', 'frame-table', 'mip-dimensions', 'save-raises', 'read-raises', 'frame-dimensions', 'compute-mipmaps-raises', 'pixels-displaced')):
+        if k.startswith(('mipmap-count', 'frame-table', 'mip-dimensions', 'save-raises', 'read-raises', 'frame-dimensions', 'compute-mipmaps-raises', 'pixels-displaced', 'full-mip-chain-', 'frames-permuted', 'foreign-full-mip-chain')):
             ck.explain('translate:VtfLayout_gen')
             ck.explain('translate:VtfContainer_gen')
             ck.explain('instance:site_')
@@ -1479,7 +1681,11 @@ def run(ck: Ck) -> None:
             ck.explain('instance:every_deferred')
             ck.explain('instance:version_tests')
             ck.explain('instance:padding_')
-            ck.explain('instance:reader_tests')
+            ck.explain('instance:reader_fetches')
+            ck.explain('instance:out_of_line_entries')
+            ck.explain('instance:inline_entries')
+            ck.explain('instance:fixed_entries')
+            ck.explain('instance:resource_flag')
             ck.explain('correspondence:container')
             ck.explain('instance:mip')
             ck.explain('instance:read_level')
@@ -1504,6 +1710,13 @@ def replay(data: dict) -> int:
         return 0
     if 'cube_override' in r:
         print(cube_override(*r['cube_override']))
+        return 0
+    if 'foreign_chain' in r:
+        d, w, h, n_full, dims, blocks = r['foreign_chain']
+        print(foreign_chain(bytes.fromhex(d), w, h, n_full, [tuple(x) for x in dims], [bytes.fromhex(x) for x in blocks]))
+        return 0
+    if 'full_chain' in r:
+        print(full_chain(*r['full_chain']))
         return 0
     if 'history' in r:
         base, n, levels = history_base(r['seed'])
